@@ -1,2 +1,67 @@
-(* C17 — property theorems only. *)
-From Dastard Require Import C17.Conc C17.Model C17.Spec C17.Proofs.
+(* C17 — property theorems only: each closed by [exact], each followed by Print Assumptions.
+
+   PARTIAL (DESIGN section 7 C17).  Full informal statement: "while a source runs, with triggers firing,
+   files being written, status being published, raw-data blocks being archived and one client issuing
+   control requests, no two threads of dastard access the same memory without synchronisation when at
+   least one access is a write - for all thread interleavings".  Race freedom of the Go program is a
+   statement about memory accesses of the Go runtime, which no Gallina model observes.  The theorems
+   below are about the OWNERSHIP PROTOCOL of Model.v (which thread may touch which shared location in
+   which phase, through which synchronisation each hand-off goes).  They hold for ALL numbers of channels
+   and ALL schedules.  The inventory of locations and synchronisation operations of the model is validated
+   dynamically (conformance of logged executions, race-detector runs), it is NOT proved complete. *)
+From Coq Require Import List Arith Bool.
+Import ListNotations.
+From Dastard Require Import C17.Conc C17.Model C17.Spec C17.Refute C17.Final.
+
+(* For every number n of channels and every schedule, no two accesses of the execution by different
+   threads to the same location, at least one of them a write and not both atomic, are unordered by
+   happens-before (program order + release/acquire edges + transitivity). *)
+Theorem ownership_race_free_partial :
+  forall (n : nat) (sched : list act) i j t1 t2 l w1 a1 w2 a2,
+    i < j ->
+    nth_error (exec fixed n sched) i = Some (Acc t1 l w1 a1) ->
+    nth_error (exec fixed n sched) j = Some (Acc t2 l w2 a2) ->
+    t1 <> t2 -> w1 || w2 = true -> a1 && a2 = false ->
+    Conc.HB tid mid loc (exec fixed n sched) i j.
+Proof. exact ownership_race_free_thm. Qed.
+Print Assumptions ownership_race_free_partial.
+
+(* The invariant behind it: in every execution every access is made by a current holder of the location
+   (a write by its only holder) and ownership changes only along a synchronisation edge. *)
+Theorem model_accepted :
+  forall (n : nat) (sched : list act), monitor_accepts fixed (exec fixed n sched) = true.
+Proof. exact model_accepted_thm. Qed.
+Print Assumptions model_accepted.
+
+(* What acceptance by the ownership monitor means, for ANY trace and any variant's initial holders
+   (this is what the conformance check uses for logs of the real program). *)
+Theorem monitor_sound :
+  forall (v : variant) (p : trace), monitor_accepts v p = true -> RaceFree p.
+Proof. exact monitor_sound_gen. Qed.
+Print Assumptions monitor_sound.
+
+(* The observable checker (happens-before computed by clocks along the log) decides race freedom exactly. *)
+Theorem checker_decides_race_freedom :
+  forall p : trace, C17_check_log p = true <-> RaceFree p.
+Proof. exact check_log_iff. Qed.
+Print Assumptions checker_decides_race_freedom.
+
+Theorem model_passes_checker :
+  forall (n : nat) (sched : list act), C17_check_log (exec fixed n sched) = true.
+Proof. exact model_passes_checker_thm. Qed.
+Print Assumptions model_passes_checker.
+
+(* The protocol of the unchanged tree: each of the five hand-offs that were repaired, re-introduced alone,
+   has a schedule with a race; so has the unchanged tree as a whole (all five). *)
+Theorem ownership_race_free_refuted_pre_fix :
+  ~ RaceFree (exec only_next 1 w_next) /\ ~ RaceFree (exec only_nsamp 2 w_nsamp) /\
+  ~ RaceFree (exec only_etrig 1 w_etrig) /\ ~ RaceFree (exec only_arch 1 w_arch) /\
+  ~ RaceFree (exec only_cnt 1 w_cnt) /\ ~ RaceFree (exec pre_fix 2 (one_block 2 ++ w_arch)).
+Proof. exact refuted_pre_fix_thm. Qed.
+Print Assumptions ownership_race_free_refuted_pre_fix.
+
+(* A seeded fault of the design's list: one counts slice shared by all TRIGGERRATE messages. *)
+Theorem ownership_race_free_refuted_shared_rate_slice :
+  ~ RaceFree (exec only_rate 1 w_rate).
+Proof. exact refuted_rate_shared_thm. Qed.
+Print Assumptions ownership_race_free_refuted_shared_rate_slice.
